@@ -6,23 +6,47 @@ import os, subprocess, json
 from lib import vf
 
 MANIFEST = {
- 'text': "Coq theorems: the final sort.Stable by position is a function of the per-position sub-sequences only (uniqueness of stable sorting), hence erases every reordering caused by map iteration unless two diagnostics share a position; a site that ranges over a map with pairwise different positions is deterministic after the sort; a site that visits sorted keys is deterministic even at one shared position (instances: format() placeholders, missing required inputs of actions and reusable workflows, visiting jobs / needs roots / registered runner labels in source order — the code after six fix: commits), while the unsorted same-position shape is refuted by a witness; LintFiles assembles per-file results by slot, independent of goroutine completion order. All for every map iteration order (Permutation) and every completion order. Tie: the model predicts the order of same-position diagnostics for generated cases at the modelled sites (vm_compute vs the implementation). Partial: rules/sites not modelled and real goroutine scheduling are covered by the repetition oracle only (every corpus file, project and generated site workflow linted R times on fresh Linters under GOMAXPROCS 1/2/4/16, results byte-compared).",
+ 'text': "Coq theorems: the final sort.Stable by position is a function of the per-position sub-sequences only (uniqueness of stable sorting), hence erases every reordering caused by map iteration unless two diagnostics share a position; a site that ranges over a map with pairwise different positions is deterministic after the sort; a site that visits sorted keys is deterministic even at one shared position (the places of the source that read the clock, the environment, the process, the machine or a random source are re-listed from the .go files on every run and each is a known one (elapsed-time log, default working directory, pool size); instances: format() placeholders, missing required inputs of actions and reusable workflows, visiting jobs / needs roots / registered runner labels in source order — the code after six fix: commits), while the unsorted same-position shape is refuted by a witness; LintFiles assembles per-file results by slot, independent of goroutine completion order. All for every map iteration order (Permutation) and every completion order. Tie: the model predicts the order of same-position diagnostics for generated cases at the modelled sites (vm_compute vs the implementation). Partial: rules/sites not modelled and real goroutine scheduling are covered by the repetition oracle only (every corpus file, project and generated site workflow linted R times on fresh Linters under GOMAXPROCS 1/2/4/16, results byte-compared).",
  'note': "Trusted: Coq kernel; Go's sort.Stable is a stable sort (then it computes ssort by ssort_unique); models of the emission sites are hand-written and correspondence-checked on generated cases; Go's map iteration is modelled as an arbitrary permutation. Not proved: determinism of unmodelled rules (repetition sampling only), Go scheduler behaviour.",
  'technique': "machine-checked proof in Coq (uniqueness of stable sorting, permutation invariance of map-iteration sites) + vm_compute correspondence + repetition oracle",
 }
+
+GEN = os.path.join(vf.COQ, 'Gen', 'GenAmbient.v')
+
+
+def regen(ctx):
+    """re-list the ambient reads (clock, environment, process, machine, random source) of the
+    package from its .go files; write Gen only when changed"""
+    tmp = os.path.join(ctx.out, 'GenAmbient.v')
+    rc, out = vf.sh([os.path.join(vf.BIN, 'c02'), '-extract-ambient', vf.REPO, '-gen', tmp], timeout=120)
+    if rc != 0:
+        ctx.broken.append('listing the ambient reads of the package failed: ' + out[-400:])
+        return
+    new = open(tmp).read()
+    old = open(GEN).read() if os.path.exists(GEN) else None
+    if new != old:
+        open(GEN, 'w').write(new)
+        ctx.notes.append('coq/Gen/GenAmbient.v regenerated (content changed)')
+
 
 def run(ctx):
     ok, log = vf.build_harness(ctx, ['c02'])
     if not ok:
         ctx.broken.append('harness does not build against /repo: ' + log[-400:])
         vf.finish(ctx, 'proof', [])
+    regen(ctx)
     nthm, ndis, _ = vf.check_props(ctx)
+    ambient_broken = 'Ambient' in (getattr(ctx, 'coq_log', '') or '')
+    if ambient_broken:
+        okg, logg = vf.coq_make(['Gen/GenAmbient.vo'])
+        ctx.broken.append('coq/Out/Ambient.v (ambient_sites_known_b): the package reads the clock / environment / process / machine / a random source at a place that is not one of the known ones; sites now: '
+                          + ' '.join(l.strip() for l in open(GEN).read().split('\n') if l.strip().startswith('(')))
     gate = vf.grep_gate()
     if gate:
         ctx.broken.append('forbidden constructs in coq/: ' + '; '.join(gate[:5]))
     reps, nsite = (24, 60) if not ctx.thorough() else (200, 400)
     rc, out = vf.sh([os.path.join(vf.BIN, 'c02'), '-seed', str(ctx.seed), '-reps', str(reps), '-nsite', str(nsite),
-                     '-out', ctx.out, '-repo', vf.REPO], timeout=3000)
+                     '-out', ctx.out, '-repo', vf.REPO] + (['-ambient-broken'] if ambient_broken else []), timeout=3000)
     if rc != 0:
         ctx.broken.append('harness c02 failed: ' + out[-400:])
         vf.finish(ctx, 'proof', [])
